@@ -3,6 +3,8 @@ package c20
 
 import (
 	"fmt"
+	geom "github.com/twpayne/go-geom"
+	"github.com/twpayne/go-geom/bigxy"
 	"math"
 	"math/big"
 	"testing"
@@ -224,6 +226,16 @@ var curDiv int
 func ep(p [2]int64) exact.P2 { return exact.Pt(val(p[0]), val(p[1])) }
 
 func prop(c Case) error {
+	// the exact-arithmetic package's other exported function runs first (whatever it
+	// returns or panics with): it shares nothing with what is measured here
+	_ = run.Safe(func() error {
+		_ = bigxy.Intersection(geom.Coord{0.1, 0.7}, geom.Coord{3.3, -1.9}, geom.Coord{-2.5, 0.3}, geom.Coord{4.7, 1.1})
+		return nil
+	})
+	return propMain(c)
+}
+
+func propMain(c Case) error {
 	curExp, curDiv = c.Exp, c.Div
 	defer func() { curExp, curDiv = 0, 0 }()
 	f := flat(c.Pts, c.Stride)
